@@ -145,11 +145,11 @@ fn gen_rank1(r: &mut Rng, k: u64) -> MmCase {
     };
     let (da, db, ta, tb, dc, name): (Vec<usize>, Vec<usize>, bool, bool, Option<Vec<usize>>, &str) = match k % 6 {
         0 => (vec![kk], vec![kk], false, false, if r.chance(1, 3) { Some(vec![1]) } else { None }, "dot"),
-        1 => (vec![kk], with(&lead, &[kk, n]), false, false, None, "vec-mat"),
+        1 => (vec![kk], with(&lead, &[kk, n]), false, false, if r.chance(1, 3) { Some(vec![n]) } else { None }, "vec-mat"),
         2 => (vec![kk], with(&lead, &[n, kk]), false, true, if r.chance(1, 2) { Some(vec![n]) } else { None }, "vec-matT"),
-        3 => (vec![kk], with(&lead, &[1, n]), true, false, None, "vecT-mat"),
-        4 => (with(&lead, &[n, kk]), vec![kk], false, true, None, "mat-vecT"),
-        _ => (with(&lead, &[n, 1]), vec![kk], false, false, None, "col-vec"),
+        3 => (vec![kk], with(&lead, &[1, n]), true, false, if r.chance(1, 3) { Some(vec![n]) } else { None }, "vecT-mat"),
+        4 => (with(&lead, &[n, kk]), vec![kk], false, true, if r.chance(1, 3) { Some(vec![1]) } else { None }, "mat-vecT"),
+        _ => (with(&lead, &[n, 1]), vec![kk], false, false, if r.chance(1, 3) { Some(vec![kk]) } else { None }, "col-vec"),
     };
     MmCase { da, db, dc, ta, tb, cell: format!("rank1-{}", name) }
 }
